@@ -397,6 +397,27 @@ func genC08(t *rapid.T) c08Case {
 		}
 		add(tw, true)
 	}
+	if chance(t, "pair-around-the-block-size", 8) {
+		// a rule that still fits into the list reader's block while its twin (",badfilter" appended) does not
+		L := rapid.IntRange(4080, 4100).Draw(t, "pair-len")
+		x := "||example.org^$domain=example.com"
+		for i := 0; len(x)+60 < L; i++ {
+			x += fmt.Sprintf("|site%04d.example", i)
+		}
+		for L-len(x) > 40 {
+			x += "|pad.example"
+		}
+		if k := L - len(x) - 1 - len(".example"); k >= 1 {
+			x += "|" + strings.Repeat("p", k) + ".example"
+		}
+		m := NetModel{Pat: "||example.org^", DPerm: []string{"example.com", "site0001.example"}}
+		tw := m
+		tw.Extra = []string{"badfilter"}
+		li := rapid.IntRange(0, nl-1).Draw(t, "pair-list")
+		c.Lines = append(c.Lines, c08Line{Text: x, Model: m, List: li, Pos: rapid.IntRange(0, 50).Draw(t, "pair-pos"), Extra: true},
+			c08Line{Text: x + ",badfilter", Model: tw, List: rapid.IntRange(0, nl-1).Draw(t, "twin-list"), Pos: rapid.IntRange(0, 50).Draw(t, "twin-pos"), Extra: true})
+		c.Reqs = append(c.Reqs, Q{URL: "http://example.org/", Src: "http://example.com/", Typ: "script"}, Q{URL: "http://example.org/x", Src: "http://site0001.example/", Typ: "image"})
+	}
 	if rare(t, "many-matching-rules", 12) {
 		// 70 to 130 base rules that match whatever the other rules match on example.org: positions beyond 64 in the matched slice
 		for i := rapid.IntRange(70, 130).Draw(t, "nmass"); i > 0; i-- {
